@@ -10,6 +10,10 @@ import (
 var bsValid = []int64{1, 2, 4, 8, 16, 32, 64, 128, 256, 512, 1024, 2048, 4096, 8192, 12288}
 var bsInvalid = []int64{0, -1, 3, 6, 12, 4097, 5000, -4096, 6144, 4095}
 
+// block sizes that are multiples of the page size but whose segment size (8*bs+1)*bs does not fit into an int
+// (or only just does): no storage can hold a segment, the constructor has to answer ErrInvalid for them too
+var bsHuge = []int64{1 << 28, 1 << 29, 1 << 30, 3 << 30, 1 << 31, 1 << 32, 1 << 40, 1 << 60, 1 << 61, 1 << 62, 1<<63 - 4096, 1<<63 - 1}
+
 func stdOps() []Op {
 	return []Op{{K: "A"}, {K: "A"}, {K: "V"}, {K: "F", I: 0}, {K: "A"}, {K: "C"}, {K: "S"}, {K: "B", I: 0}, {K: "B", I: 1},
 		{K: "W", I: 0, V: 255}, {K: "P", I: 1, P: 0, V: 254}, {K: "F", I: 0}, {K: "F", I: 0}, {K: "R"}, {K: "A"}}
@@ -52,6 +56,13 @@ func genCtor(fl *hx.Flags, emit func(Case)) {
 					continue // the very large storages once
 				}
 				emit(Case{Kind: "seq", Bs: bs, Size: sz, Fit: fit, Backend: "mem", Ops: stdOps(), Every: everyFor(sz/ss*8*bs, 15), Note: "ctor"})
+			}
+		}
+	}
+	for _, bs := range bsHuge {
+		for _, sz := range []int64{0, 100, 40960, 300000} {
+			for _, fit := range []bool{false, true} {
+				emit(Case{Kind: "seq", Bs: bs, Size: sz, Fit: fit, Backend: "mem", Ops: stdOps(), Note: "ctor-huge"})
 			}
 		}
 	}
